@@ -332,6 +332,8 @@ pub struct Craft {
     /// silently remove these assertion URIs from ingredient claims after loading
     pub silent_removals: Vec<String>,
     pub thumbnails: usize,
+    /// further hard-binding assertions of the claim itself: "boxes", "bmff.v1", "bmff.v2", "bmff.v3"
+    pub own_hashes: Vec<String>,
 }
 
 pub struct Crafted {
@@ -385,6 +387,19 @@ pub fn craft(c: &Craft, asset: &[u8]) -> c2pa::Result<Crafted> {
         let mut dh = DataHash::new("jumbf manifest", "sha256");
         dh.gen_hash_from_stream(&mut Cursor::new(asset))?;
         claim.add_assertion(&dh)?;
+    }
+    for kind in &c.own_hashes {
+        match kind.as_str() {
+            "boxes" => {
+                claim.add_assertion(&c2pa::assertions::BoxHash::default())?;
+            }
+            k if k.starts_with("bmff.v") => {
+                let mut bh = c2pa::assertions::BmffHash::new("jumbf manifest", "sha256", None);
+                bh.set_bmff_version(k[6..].parse().unwrap_or(3));
+                claim.add_assertion(&bh)?;
+            }
+            _ => {}
+        }
     }
     let mut actions = Actions::new();
     match c.inception.as_str() {
